@@ -10,7 +10,9 @@ for p in $props; do
     [ -f "$d" ] || continue
     if ! git -C /repo apply --recount --check /verif/selftest/mutants/$d 2>/dev/null; then echo "SELFTEST $d: does not apply"; fail=1; continue; fi
     git -C /repo apply --recount /verif/selftest/mutants/$d
+    cp /verif/evidence/$p.json /verif/out/.evidence.$p.bak 2>/dev/null  # evidence describes the unchanged tree: keep it
     out=$(/verif/bin/check $p --tier quick 2>&1); rc=$?
+    [ -f /verif/out/.evidence.$p.bak ] && mv /verif/out/.evidence.$p.bak /verif/evidence/$p.json
     git -C /repo checkout -- . 
     n=$(echo "$out" | grep -c '^VIOLATION')
     if [ $rc -eq 1 ] && [ $n -gt 0 ]; then echo "SELFTEST $d: killed ($n violations; $(echo "$out" | grep -m1 'failed obligation' | sed 's/.*failed obligation: //' | cut -c1-110))"; else echo "SELFTEST $d: SURVIVED (exit $rc)"; fail=1; fi
